@@ -413,8 +413,8 @@ def _account(st, sched, cfg, par, p0, c0):
         return
     if par == "auto":
         st.fault("auto_chose_parallel")
-    nw = len(pools[0].workers)
-    ntasks = sum(j.n for p in pools for j in p.jobs)
+    nw = getattr(pools[0], "nprocs", len(pools[0].workers))  # recycled workers (maxtasksperchild) do not count
+    ntasks = sum((j.n if j.n is not None else len(j.results)) for p in pools for j in p.jobs)  # n unknown: never fully fed
     pids = {p.pid for p in pools}
     assign = {k: v for k, v in sched.assignment.items() if True}
     ran = sorted({w.id for p in pools for w in p.workers if w.tasks_done})
